@@ -431,7 +431,18 @@ func (net *Net) stabilise() {
 			return
 		}
 	}
-	bound := 40 + 12*len(net.members)
+	// firings needed in the worst case: every member catches up to the highest view one firing at a time, then at most
+	// n further views (Byzantine or refused leaders) in which every member fires once more
+	var maxV uint64
+	for _, n := range G {
+		if v := uint64(n.St.View()); v > maxV {
+			maxV = v
+		}
+	}
+	bound := 20 + len(G)*(len(net.members)+3)
+	for _, n := range G {
+		bound += int(maxV - uint64(n.St.View()))
+	}
 	firings := 0
 	for {
 		drain()
